@@ -172,6 +172,10 @@ def spaces(tier, seed):
         out.append(ProductSpace('W(3,7)xlong', S.word_dims(al3, 7) + [longs], ev,
                                 describe='7-letter words x the deviations that need longer signals (43-tap filter, boundary 12)',
                                 bounds={'letters': al3, 'option_sets': len(longs)}))
+        flats = [('dc5',), ('dc5', 'trough'), ('amp', 'dc5'), ('amp', 'mbd'), ('amp', 'mbd', 'trough')]
+        out.append(ProductSpace('Wflat(3,5)', S.word_dims(['a', 'z', 'd'], 5) + [flats], ev,
+                                describe='constant stretches at a NON-zero level (zero letters + DC offset: sample-and-hold drop-outs, rails) and the amplitude '
+                                         'method with a minimum burst duration', bounds={'letters': ['a', 'z', 'd'], 'option_sets': len(flats)}))
         shorts = [('b12',), ('b12', 'trough'), ('b12', 'amp'), ('b12', 'amp', 'trough')]
         out.append(ProductSpace('W(4,5)xone-row', S.word_dims(S.alphabet(4), 5) + [shorts[:2] if tier == 'quick' else shorts], Pipeline(min_peaks=2),
                                 describe='5-letter words with boundary 12: recordings that hold exactly ONE or two complete cycles '
